@@ -33,7 +33,11 @@ def mi(Y, X, c):
     """Y, X: int32 arrays owned by the oracle (passed again on later calls) or anything convertible (fresh copy)."""
     Ya = Y if isinstance(Y, np.ndarray) and Y.dtype == np.int32 else own(Y)
     Xa = X if isinstance(X, np.ndarray) and X.dtype == np.int32 else own(X)
-    return float(cut.mutual_info_estimator_numba(Ya, Xa, np.float32(1.0), bool(c)))
+    try:
+        return float(cut.mutual_info_estimator_numba(Ya, Xa, np.float32(1.0), bool(c)))
+    except Exception as e:  # noqa: BLE001
+        raise Violation(f'estimator raised {type(e).__name__}: {str(e)[:300]} for int32 vectors of length {len(Xa)}',
+                        kind='C02/exception')
 
 
 # ---- strategies ----------------------------------------------------------------------------------
@@ -86,7 +90,7 @@ def relabel_case(draw):
 
 @st.composite
 def selfrule_case(draw):
-    return dict(draw(st.one_of(equal_sum_pair(), equal_sum_pair(), gens.small_pair(max_n=24))))
+    return dict(draw(st.one_of(equal_sum_pair(), equal_sum_pair(), gens.small_pair(max_n=24), gens.lagged_pair())))
 
 
 VALUE_POOL = ['', 'a', 'b', 'ab', 'ba', '1', '11', '2', '10', 'é', 'é', ' ', 'Z', 'z', '0', '-1', 'NaN', 'x,y']
@@ -134,9 +138,14 @@ def oracle_relabel(case, rec):
 
 
 def oracle_selfrule(case, rec):
-    Y, X = gens.materialize_pair(case)
+    if 'lagged' in case:
+        _, Ya, Xa = gens.build_lagged(case['lagged'])     # views of one buffer (may start at the same address)
+        Y, X = Ya.astype(np.int64), Xa.astype(np.int64)
+        rec.cls('views:' + case['lagged'].get('layout', 'windows'))
+    else:
+        Y, X = gens.materialize_pair(case)
+        Ya, Xa = own(Y), own(X)      # the caller's arrays: scored several times below
     t = rm.tol(Y, X)
-    Ya, Xa = own(Y), own(X)          # the caller's arrays: scored several times below
     if np.array_equal(Y, X):
         hx = rm.entropy(X)
         b, a = mi(Ya, Xa, False), mi(Ya, Xa, True)
@@ -216,7 +225,7 @@ def oracle_pipeline(case, rec):
                             f'{s1[k]} -> {s2[k]}')
 
 
-ORACLES = {'C02/relabel-invariance': oracle_relabel, 'C02/self-pair-rule': oracle_selfrule,
+ORACLES = {'C02/exception': oracle_selfrule, 'C02/relabel-invariance': oracle_relabel, 'C02/self-pair-rule': oracle_selfrule,
            'C02/pipeline-coding': oracle_pipeline}
 
 
